@@ -25,12 +25,13 @@ func init() {
 				"Line (from its line parameter or the lexer's current line) and TemplatePath (from t.Name). (C12.early) in the parser, a line number handed to a constructor is read before any nested " +
 				"body (itemList) is parsed on that path, so multi-line constructs carry the line of their opening action. (C12.pos) every panic reachable from Execute is raised through NodeBase.errorf " +
 				"(and so carries file and line); functions that panic with a bare error are enumerated. (C12.stream) outside executeTry (and exec's Discard) nothing replaces the output Writer, so output " +
-				"produced before a failing action has already been written. (C12.piped) every dereference of a piped-value pointer (a *reflect.Value parameter or Arguments.pipedVal) lies where the pointer is known to be non-nil, so a '_' placeholder without a piped value is an error, not a nil dereference. (C12.div) every integer / and % whose divisor is not a non-zero constant lies where the divisor is known to be non-zero. (C12.assert) every unchecked assertion of a Node to a concrete node type lies where n.Type() is known to be that type's constant — by a positive test, or because every other type the parser admits at that place (derived from the parser's own tests around the append to an assignment's target list; declarations narrowed to identifier/underscore, itself an obligation on the parser) was ruled out. (C12.set) reflect.Value.Set is reached only where CanSet, the value's validity and AssignableTo are known true, SetMapIndex only where the map is non-nil and key and value fit the map's key and element types. (C12.call) reflect.Value.Call is reached only where the callee is known to be a non-nil function (its kind tested by the function or by every caller). (C12.iface) an unchecked v.Interface().(T) lies behind v.Type().Implements(<T>) for an interface T, and for a concrete T behind a Convert to T's reflect.Type or a test of type identity. (C12.kind) every reflect.Value.Int/Uint/Float/Bool lies where the kind of the receiver is known to be in the accessor's class (switch case, == test or one of the module's kind predicates, themselves verified against all kinds). (C12.shadow) no error variable declared without a value (named result, `var err error`) is read — tested, returned, handed back by a bare return — while nothing in the function assigns it, and no assignment to an error variable that shadows an outer one of the same name is left unread before its scope ends: both are the marks of an error lost to := shadowing. (C12.pos/C12.format, continued) the positioned raise is recognised by what it raises — a value built by fmt.Errorf from a node's TemplatePath and Line, directly, through a local, or as the result of a helper all of whose results are — not by the name of the function. (C12.panicval taken-out) a function that is handed the fields of a struct one by one (`<value>.Field(i)` as an argument of a call to it) calls Interface() on such a parameter only where CanInterface() is known to hold: reflect refuses to hand out unexported fields with a string panic.",
+				"produced before a failing action has already been written. (C12.piped) every dereference of a piped-value pointer (a *reflect.Value parameter or Arguments.pipedVal) lies where the pointer is known to be non-nil, so a '_' placeholder without a piped value is an error, not a nil dereference. (C12.div) every integer / and % whose divisor is not a non-zero constant lies where the divisor is known to be non-zero. (C12.assert) every unchecked assertion of a Node to a concrete node type lies where n.Type() is known to be that type's constant — by a positive test, or because every other type the parser admits at that place (derived from the parser's own tests around the append to an assignment's target list; declarations narrowed to identifier/underscore, itself an obligation on the parser) was ruled out. (C12.set) reflect.Value.Set is reached only where CanSet, the value's validity and AssignableTo are known true, SetMapIndex only where the map is non-nil and key and value fit the map's key and element types. (C12.call) reflect.Value.Call is reached only where the callee is known to be a non-nil function (its kind tested by the function or by every caller). (C12.iface) an unchecked v.Interface().(T) lies behind v.Type().Implements(<T>) for an interface T, and for a concrete T behind a Convert to T's reflect.Type or a test of type identity. (C12.kind) every reflect.Value.Int/Uint/Float/Bool lies where the kind of the receiver is known to be in the accessor's class (switch case, == test or one of the module's kind predicates, themselves verified against all kinds). (C12.shadow) no error variable declared without a value (named result, `var err error`) is read — tested, returned, handed back by a bare return — while nothing in the function assigns it, and no assignment to an error variable that shadows an outer one of the same name is left unread before its scope ends: both are the marks of an error lost to := shadowing. (C12.pos/C12.format, continued) the positioned raise is recognised by what it raises — a value built by fmt.Errorf from a node's TemplatePath and Line, directly, through a local, or as the result of a helper all of whose results are — not by the name of the function. (C12.panicval taken-out) a function that is handed the fields of a struct one by one (`<value>.Field(i)` as an argument of a call to it) calls Interface() on such a parameter only where CanInterface() is known to hold: reflect refuses to hand out unexported fields with a string panic. (C12.panicval hashable-key) every MapIndex/SetMapIndex of the evaluator is handed a key that comes out of the map itself, was converted to a string type, or is known to be of a comparable type.",
 			NotDecided:  "that the recorded line is the action's own line for multi-line actions (lexer look-ahead); errors returned as a second result by reflected user functions (dropped by the call path: observed, not decided); writer errors.",
 			Assumptions: []string{"panics raised inside the standard library's reflect package are strings or runtime errors"},
 			Trusted:     commonTrusted,
 		},
 		Mutants: []Mutant{
+			{Name: "map indexed with a value that may be unhashable (original defect)", File: "eval.go", Old: "\t\tif !indexVal.Type().Comparable() {\n", New: "\t\tif false && !indexVal.Type().Comparable() {\n", Rule: "C12.panicval"},
 			{Name: "values of unexported struct fields taken out with Interface() (original defect)", File: "eval.go", Old: "\t\tif !v1.CanInterface() || !v2.CanInterface() {\n\t\t\treturn false\n\t\t}\n", New: "", Rule: "C12.panicval"},
 			{Name: "integer division by zero unguarded (original defect)", File: "eval.go", Old: "\t\t\t\tif toInt(right) == 0 {\n\t\t\t\t\tnode.Right.errorf(\"division by zero\")\n\t\t\t\t}\n", New: "", Rule: "C12.div"},
 			{Name: "modulo by zero unguarded for unsigned operands (original defect)", File: "eval.go", Old: "\t\t} else if isUint(kind) {\n\t\t\tif toUint(right) == 0 {\n\t\t\t\tnode.Right.errorf(\"modulo by zero\")\n\t\t\t}\n\t\t}\n", New: "\t\t}\n", Rule: "C12.div"},
@@ -233,6 +234,7 @@ func runC12(c *an.Ctx) {
 	convGuards(c, "C12.panicval", nil)
 	boundsRule(c, "C12.panicval")
 	c12fieldInterface(c)
+	c12hashableKey(c)
 
 	// ---------------------------------------------------------------- C12.nilrecv
 	nCalls := 0
